@@ -6,6 +6,15 @@ ALL = ["C%02d" % i for i in range(1, 21)]
 
 # id -> (technique, level text, level note, design ref)
 CHECKS = {
+ "C04": ("bounded exhaustive enumeration in both directions on the real converter: every NBT tree <=N nodes over a quoting/literal-classifier alphabet (binary->text->binary), every string <=L over a 22-character alphabet, every token sequence <=K over punctuation + 28 literals, every printed text under all lexical styles and <=2 whitespace deviations plus every single-token mutant (text->binary); judged by an independent three-valued SNBT reader and ref/refnbt",
+         "binary->text->binary yields the identical tree (tags, integers, strings exact, finite floats bit-exact; StringifiedMessage and RawMessage.String agree; TagType equals the root tag). Every text the parser accepts yields one well-formed document that agrees with the reference reading when the reference accepts, with the announced tag type; every text the reference rejects (trailing garbage, truncation, mixed lists, wrong array elements...) is an error; never a panic.",
+         "Trusted: ref/refsnbt (204 hand vectors + printer/reader identity + bigtest values) and ref/refnbt. The reference REJECTs only what every sane reader rejects; vanilla disagreements (true/false, trailing commas, irregular numeric tokens, other escapes, NaN/Inf, empty-list element tags) are unspecified: executed, panic-checked, output must still be a well-formed document.",
+         "DESIGN.md §2 C04"),
+ "C08": ("bounded exhaustive enumeration of hostile inputs on 90 real decoders: all byte strings <=5 over a 7-symbol alphabet, every truncation / single-byte substitution / located length-prefix overwrite of 313 valid seed encodings, wrong-size data arrays and height maps, all JSON token sequences <=5, all command lines <=6 over 6 characters x 30 command graphs",
+         "UnPack (5 thresholds), every packet field and combinator, Packet.Scan bodies of the handshake/login/configuration packets, BitStorage, PaletteContainer, Section, Chunk.PutData/ReadFrom, BlockEntity, chat Message/JsonMessage/Type, Registry ReadFrom/ReadTagsFrom and Graph.Execute return a value or an error: never a panic, never non-termination; negative or inconsistent length prefixes written by the check into the places the statement names must give a non-nil error.",
+         "Trusted: an independent layout walker (checks/c08/scan.go, pinned on protocol vectors) locates the prefixes. Declared lengths above 2^20 are not executed (over-allocation guard, counted). Which error, partial results, prefixes outside the named places: unspecified. level/component is excluded (unimplemented upstream).",
+         "DESIGN.md §2 C08"),
+
  "C10": ("explicit-state exploration of the real CFB8 stream: all call sequences to depth 3/4 over (length x aliasing layout) from the initial state and from every register position (all 7,854 (direction, ivPos, length, layout) transitions taken), plus exhaustive packet-size sequences over an encrypted Conn pair under 16 read-fragmentation patterns; judged by a byte-at-a-time AES-CFB8 reference",
          "Every call's output equals ref/refcfb8 continued across calls for encrypt and decrypt, key sizes 16/24/32, in place / disjoint-below / disjoint-above / longer dst carved from one arena; decrypt(encrypt(m)) == m under four call patterns; two mcnet.Conn with SetCipher on both ends deliver every packet intact and in order for thresholds {-1,0,64} and all size sequences <=3 over 8 sizes in both directions.",
          "Trusted: ref/refcfb8 (self-tested on NIST SP 800-38A F.3.7-F.3.12). Partial overlap of src and dst is outside cipher.Stream's contract and not exercised. The Conn part uses a deterministic single-threaded pipe (no scheduler).",
